@@ -39,6 +39,29 @@ Corollary C11_roundtrip_real : forall sha256 lam, sha_ok sha256 ->
 Proof. intros sha256 lam Hs. apply C11_roundtrip, real_codec_ok, Hs. Qed.
 Print Assumptions C11_roundtrip_real.
 
+(* closing the quantifier "all values": whatever from_micheline_value builds from a Micheline tree
+   (whose strings are valid UTF-8, as Python str is) is well typed — unless it holds an address spelt
+   with an empty entrypoint — and therefore round-trips in every mode.
+   [codec_sound]: decoded payloads have the length of their kind (true of the real functions);
+   the parser hypothesis: lambda bodies come back as sequences in normal form. *)
+Theorem C11_parsed_values_well_typed : forall C lam, codec_sound C ->
+  (forall n c, lam n = Ok c -> lam c = Ok c /\ exists l, c = NSeq l) ->
+  forall t n v, str_utf8 n = true -> of_mich C lam t n = Ok v -> no_empty_ep v = true ->
+  has_type lam t v = true.
+Proof. exact parsed_well_typed. Qed.
+Print Assumptions C11_parsed_values_well_typed.
+
+Theorem C11_parsed_values_roundtrip : forall C lam, codec_ok C -> codec_sound C ->
+  (forall n c, lam n = Ok c -> lam c = Ok c /\ exists l, c = NSeq l) ->
+  forall t n v m, str_utf8 n = true -> of_mich C lam t n = Ok v -> no_empty_ep v = true ->
+  of_mich C lam t (to_mich C m v) = Ok v.
+Proof. exact parsed_roundtrip. Qed.
+Print Assumptions C11_parsed_values_roundtrip.
+
+Theorem C11_real_codec_sound : forall sha256, sha_ok sha256 -> codec_sound (real_codec sha256 table43).
+Proof. exact real_codec_sound. Qed.
+Print Assumptions C11_real_codec_sound.
+
 (* timestamps: EVERY integer round-trips through its text form (RFC 3339 inside the years
    1000..9999, decimal integer outside) ... *)
 Theorem C11_timestamp_all_Z : forall z : Z, parse_ts (format_timestamp z) = Ok z.
@@ -115,6 +138,11 @@ Definition ex_val : val :=
       (VPair (VAddr (KT1, repeat xff 20) (Some (tx "do")))
              (VMap [(VString (tx "a"), VSig (repeat x01 64)); (VString (tx "b"), VSig (repeat x02 96))]))))).
 Definition lam0 : node -> result node := fun n => Ok n.
+
+Example C11_parser_hypothesis_inhabited :
+  forall n c, (fun n => match n with NSeq _ => Ok n | _ => Reject end) n = Ok c ->
+              (fun n => match n with NSeq _ => Ok n | _ => Reject end) c = Ok c /\ exists l, c = NSeq l.
+Proof. intros n c H. destruct n; try discriminate H. injection H as <-. split; [reflexivity|eexists; reflexivity]. Qed.
 
 Example C11_example_typed : has_type lam0 ex_ty ex_val = true.
 Proof. vm_compute. reflexivity. Qed.
